@@ -16,6 +16,13 @@ Line protocol (one reply line per request line):
       logprob / ctor: the flat vector produced from the matrix value[i,a] = i·t + a   (Gen logProbArg / ctorLoc)
       mean … base:    the n × t matrix (row-major) read from the flat vector loc[p] = p (Gen meanView …)
   C   reply: fromBatchMvn=<op>/<inter>;fromIndependentMvns=…;fromRepeatedMvn=…;branches=<names>
+  B <inter> <k> <b1> … <bk> <n> <t> <bare 0|1> <m> <COMP 1> … <COMP m>
+      COMP := IDX | e                      (e = Ellipsis; `bare 1` = d[COMP] without a tuple, m = 1)
+      reply: gen=<COV>;spec=<COV>     COV := none | <mvn|mt0|mt1>|<batch shape, comma separated>|<block>/<block>/…
+      block = rows joined by `_`, a row = entries joined by `,`; an entry is the TAG of the source covariance entry
+      (β, p, q): 1 + (flat(β)·N + p)·N + q, or 0 for a zero entry.
+      gen  = the covariance selection of Gen.MTIndex.getitemFull (the whole translated `__getitem__`) evaluated by the
+             model of LinearOperator indexing (CovSel.eval); spec = MTIndex.specGetitemB
 -/
 
 def optInt? (s : String) : Option (Option Int) :=
@@ -46,12 +53,77 @@ def showRes : Option (OutKind × List Int) → String
   | some (.mt false, l) => "mt0:" ++ showInts l
   | some (.mt true, l) => "mt1:" ++ showInts l
 
+def parseComps : Nat → List String → Option (List BIdx)
+  | 0, [] => some []
+  | 0, _ => none
+  | m + 1, "e" :: rest => (parseComps m rest).map (BIdx.ellipsis :: ·)
+  | m + 1, ts =>
+    match parseIdx ts with
+    | some (x, rest) => (parseComps m rest).map (BIdx.comp x :: ·)
+    | none => none
+
+def takeNats : Nat → List String → Option (List Nat × List String)
+  | 0, ts => some ([], ts)
+  | k + 1, t :: ts => do
+      let v ← t.toNat?
+      let (vs, rest) ← takeNats k ts
+      some (v :: vs, rest)
+  | _, [] => none
+
+/-- row-major flat index of a batch element -/
+def flatBatch (bs : List Nat) (β : List Int) : Int :=
+  (bs.zip β).foldl (fun acc (b, x) => acc * (b : Int) + x) 0
+
+def showEntry (bs : List Nat) (N : Int) : Entry → String
+  | none => "0"
+  | some (β, p, q) => toString (1 + (flatBatch bs β * N + p) * N + q)
+
+def showCov (bs : List Nat) (N : Int) : Option (OutKind × CovRes) → String
+  | none => "none"
+  | some (k, c) =>
+    let kind := match k with
+      | .mvn => "mvn"
+      | .mt false => "mt0"
+      | .mt true => "mt1"
+    let blocks := "/".intercalate (c.blocks.map fun blk =>
+      "_".intercalate (blk.map fun row => ",".intercalate (row.map (showEntry bs N))))
+    s!"{kind}|{",".intercalate (c.batch.map toString)}|{blocks}"
+
+def stepB (ts : List String) : String :=
+  match ts with
+  | inter :: k :: rest =>
+    match inter.toNat?, k.toNat? with
+    | some inter, some k =>
+      match takeNats k rest with
+      | some (bs, n :: t :: bare :: m :: rest') =>
+        match n.toNat?, t.toNat?, bare.toNat?, m.toNat? with
+        | some n, some t, some bare, some m =>
+          match parseComps m rest' with
+          | some comps =>
+            let e : Option IdxExpr := if bare = 0 then some (.tuple comps) else
+              match comps with
+              | [x] => some (.bare x)
+              | _ => none
+            match e with
+            | some e =>
+              let b := inter != 0
+              let N : Int := (n : Int) * t
+              let gen := evalResult bs N (Gen.MTIndex.getitemFull b ((bs.length : Int) + 2) n t e)
+              s!"gen={showCov bs N gen};spec={showCov bs N (specGetitemB b bs n t e)}"
+            | none => "bad-request"
+          | none => "bad-request"
+        | _, _, _, _ => "bad-request"
+      | _ => "bad-request"
+    | _, _ => "bad-request"
+  | _ => "bad-request"
+
 def showOp : BlockOp × Bool → String
   | (.interleavedBlocks, b) => s!"interleavedBlocks/{if b then 1 else 0}"
   | (.diagBlocks, b) => s!"diagBlocks/{if b then 1 else 0}"
 
 def step (line : String) : String :=
   match Proto.tokens line with
+  | "B" :: rest => stepB rest
   | "G" :: inter :: n :: t :: rest =>
     match inter.toNat?, n.toInt?, t.toInt?, parseIdx rest with
     | some inter, some n, some t, some (r, rest') =>
